@@ -105,7 +105,7 @@ func c09Session(c *Ctx, nSenders, perSender int, pacing string, procs int) {
 		desc += " (peer stalls in mid-line for 3 x timeout now and then)"
 		rp["mid_line_stalls"] = true
 		go func() {
-			for k := 0; ; k++ {
+			for k := 0; k < 40; k++ { // forty stalls of 3 x timeout: enough to meet every kind of line, little enough not to slow a long session down
 				select {
 				case <-stopPace:
 					return
